@@ -277,7 +277,12 @@ func checkPattern(s string) (accepted bool, err error) {
 
 var hostileSpecs = []string{"", "grammar", "grammar g", "grammar g;", "grammar g; start = ;", "grammar g; start = start | ;x", "grammar g; @left", "grammar g; A", "grammar g; AB = ", "grammar g; AB = $X start = AB;",
 	"grammar g; AB = /[\\x0100]/ start = AB;", "grammar g; AB = // start = AB;", "grammar g; start = \"\\", "grammar g; start = {{{ \"a\" }}};", "grammar g; start = < ;", "grammar g; @left < start = > ; start = ;",
-	"grammar g; @none <x = > <x = > ; start = x; x = ;", "grammar g; start = ((((((((((\"a\"))))))))));", "grammar g; AB = /[\\xFFFFFFFF]/ start = AB;", "grammar g; AB = /a{3,1}/ start = AB;", "grammar g; AB = /a{64}/ start = AB;", "grammar g; AB = /[a-z]{70}x/ start = AB;"}
+	"grammar g; @none <x = > <x = > ; start = x; x = ;", "grammar g; start = ((((((((((\"a\"))))))))));", "grammar g; AB = /[\\xFFFFFFFF]/ start = AB;", "grammar g; AB = /a{3,1}/ start = AB;", "grammar g; AB = /a{64}/ start = AB;", "grammar g; AB = /[a-z]{70}x/ start = AB;",
+	// one specimen per semantic diagnostic, in several orders
+	"grammar g;\nIF = \"if\"\nstart = IF \"if\";\n", "grammar g;\nstart = \"if\" IF;\nIF = \"if\"\n", "grammar g;\nARROW = /->/\nstart = ARROW \"->\";\n",
+	"grammar g;\nPLUS = \"+\"\nADD = \"+\"\nstart = PLUS ADD \"+\";\n", "grammar g;\nNUM = /[0-9]+/\nINT = /[0-9]+/\nstart = NUM INT;\n", "grammar g; AB = \"x\" AB = /y/ start = AB;",
+	"grammar g; start = AB;", "grammar g; start = x;", "grammar g; x = \"a\";", "grammar g; @left \"+\" @right \"+\" start = \"+\";", "grammar g; @left <start = \"a\"> @right <start = \"a\"> start = \"a\";",
+	"grammar g; AB = $ID CD = $ID start = AB CD;", "grammar g; AB = /(/ CD = /)/ EF = /[z-a]/ start = AB CD EF;", "grammar g; @left AB start = \"a\";", "grammar g; @left <x = \"a\"> start = \"a\";"}
 
 func genSpecBytes(t *rapid.T) ([]byte, string) {
 	switch rapid.IntRange(0, 9).Draw(t, "source") {
@@ -286,7 +291,7 @@ func genSpecBytes(t *rapid.T) ([]byte, string) {
 	case 1:
 		return []byte(rapid.SampledFrom(hostileSpecs).Draw(t, "hostile")), "hostile_constant"
 	}
-	m := gen.Spec(t, gen.SpecOpts{MaxRules: 2, Depth: 3, Literals: []string{"a", "b", `\"`}, Tokens: []string{"TK", "NUM"}, Directives: 2, RuleHandles: true, DupRules: true, EmptyRules: true})
+	m := gen.Spec(t, gen.SpecOpts{MaxRules: 2, Depth: 3, Literals: []string{"a", "b", `\"`, "kw0", "kw1", "TK"}, Tokens: []string{"TK", "NUM"}, Directives: 2, RuleHandles: true, DupRules: true, EmptyRules: true})
 	toks := m.Tokens()
 	label := "valid"
 	for k, n := 0, rapid.IntRange(0, 2).Draw(t, "tokenEdits"); k < n && len(toks) > 1; k++ {
